@@ -88,7 +88,7 @@ Definition compose_step (acc : outcome opose) (cur : opose) : outcome opose :=
       match o_r a, o_r cur, o_t a, o_t cur with
       | Some ra, Some rc, Some ta, Some tc =>
           if is_zero ra then Raises
-          else Ok (mkO (Some (qmul_r ra rc)) (Some (vadd_r (mvmul_r (rot_impl_r ra) tc) ta)))
+          else Ok (mkO (Some (qmul_r ra rc)) (Some (vadd (apply_parts_r (rot_parts_r ra) tc) ta)))
       | _, _, _, _ => Raises
       end
   | other => other
@@ -103,7 +103,7 @@ Definition inverse_api (p : opose) : outcome opose :=
   match o_r p, o_t p with
   | Some r, Some t =>
       if is_zero r then NonFinite
-      else let ri := qinv_r r in Ok (mkO (Some ri) (Some (mvmul_r (rot_impl_r ri) (vneg t))))
+      else Ok (mkO (Some (qinv_n r)) (Some (apply_parts_r (rot_parts_inv_r r) (vneg t))))
   | _, _ => Raises
   end.
 
@@ -124,7 +124,7 @@ Definition transform_api (p : opose) (rows : list (list Q)) : outcome (list vec)
   | Some r, Some t =>
       match rows_xyz rows with
       | Some xs => if is_zero r then Raises
-                   else let R := rot_impl_r r in Ok (map (fun x => vadd_r (mvmul_r R x) t) xs)
+                   else let R := rot_parts_r r in Ok (map (fun x => vadd (apply_parts_r R x) t) xs)
       | None => Raises
       end
   | _, _ => Raises
@@ -141,6 +141,14 @@ Definition tol : Q := 1 # 1000000000.
 
 Inductive call :=
 | CCompose (ps : list opose) (o : outcome opose)
+    (* compose(ps) returned o: the model evaluates the whole chain exactly and compares *)
+| CChain (ps : list opose) (os : list (outcome opose))
+    (* os = [compose(ps[:1]); compose(ps[:2]); ...; compose(ps)] as observed.  Checked as the left fold it
+       must be: the first is ps[0] itself and each next one agrees with ONE model step applied to the
+       previous OBSERVED result (PPose.chain_ok_exact: with zero tolerance this is compose_api on every
+       prefix).  Exact evaluation of a long chain from its first pose makes numerators of several thousand
+       bits whose gcds dominate the shard time; stepping from the observed doubles keeps every number small,
+       and a deviation of the implementation at any step still shows at that step. *)
 | CInverse (p : opose) (o : outcome opose)
 | CTransform (p : opose) (rows : list (list Q)) (o : outcome (list vec)).
 
@@ -170,9 +178,23 @@ Fixpoint points_close (t : vec) (xs ms os : list vec) : bool :=
   | _, _, _ => false
   end.
 
+Fixpoint chain_ok (acc : outcome opose) (ps : list opose) (os : list (outcome opose)) : bool :=
+  match ps, os with
+  | [], [] => true
+  | p :: ps', o :: os' =>
+      let scale := match acc with Ok a => tscale [a; p] | _ => 0 end in
+      outcome_close (opose_close scale) (compose_step acc p) o && chain_ok o ps' os'
+  | _, _ => false
+  end.
+
 Definition check_call (c : call) : bool :=
   match c with
   | CCompose ps o => outcome_close (opose_close (tscale ps)) (compose_api ps) o
+  | CChain ps os =>
+      match ps, os with
+      | p :: ps', o :: os' => outcome_close (opose_close (tscale [p])) (Ok p) o && chain_ok o ps' os'
+      | _, _ => false
+      end
   | CInverse p o => outcome_close (opose_close (tscale [p])) (inverse_api p) o
   | CTransform p rows o =>
       match transform_api p rows, o with
